@@ -29,6 +29,19 @@ theorem no_tail_no_wrapper (first : J) (rest : List (String × J)) :
   simp only [toUnionCall, hn]
   simp
 
+/-- **clauses written behind a parenthesised query are kept, outside it**: `(q) ORDER BY ob LIMIT l OFFSET o` is the
+query `q` — with every clause it has of its own — under `from`, and the outer clauses next to it; nothing written is
+dropped and the inner query is not touched (`to_union_call` used to return `q` alone: repaired, `3ed8b7a`) -/
+theorem tail_after_parenthesised_query (q ob lim off : J) (h1 : ob.isNull = false) (h2 : lim.isNull = false) (h3 : off.isNull = false) :
+    toUnionCall q [] ob lim off = .obj [("from", q), ("orderby", ob), ("limit", lim), ("offset", off)] := by
+  simp [toUnionCall, fold, h1, h2, h3]
+
+/-- … and each of the three alone is enough for the wrapper -/
+theorem any_tail_wraps (q ob lim off : J) (h : (ob.isNull && off.isNull && lim.isNull) = false) :
+    ∃ kvs, toUnionCall q [] ob lim off = .obj (("from", q) :: kvs) := by
+  simp only [toUnionCall, fold, h]
+  exact ⟨_, rfl⟩
+
 /-- **Keys are exactly the clauses present**: the keys of a statement's tree are the names of the
 clause slots whose content is not empty, in slot order — for every raw statement, `calls=` mode
 and `fmap`. -/
